@@ -400,6 +400,15 @@ int aws_base64_decode(const struct aws_byte_cursor *AWS_RESTRICT to_decode, stru
             return aws_raise_error(AWS_ERROR_INVALID_BASE64_STR);
         }
 
+        /* RFC 4648: '=' may only be followed by '=', and the bits of the last digit that carry no data must be zero */
+        if (value3 == BASE64_SENTINEL_VALUE) {
+            if (value4 != BASE64_SENTINEL_VALUE || (value2 & 0x0F)) {
+                return aws_raise_error(AWS_ERROR_INVALID_BASE64_STR);
+            }
+        } else if (value4 == BASE64_SENTINEL_VALUE && (value3 & 0x03)) {
+            return aws_raise_error(AWS_ERROR_INVALID_BASE64_STR);
+        }
+
         output->buffer[buffer_index++] = (uint8_t)((value1 << 2) | ((value2 >> 4) & 0x03));
 
         if (value3 != BASE64_SENTINEL_VALUE) {
